@@ -24,6 +24,7 @@
 //!   ["flush"]                             deliver every packet now on the wire, in order
 //!   ["netstat", host] / ["counts", host] / ["rows", host]
 //!   ["udp_bind", slot, host, ia, port] / ["udp_send", slot, len, ia, port]
+//!   ["set_isn", host, value]              verif hook: next initial sequence number of that host
 //!   ["udp_connect", slot, ia, port] / ["udp_send_c", slot, len]   connected UDP: connect, then send / try_send
 //! One observation per command, same index.
 
@@ -460,6 +461,16 @@ fn run_case(case: &Value) -> Value {
                         }
                     }
                     _ => json!({"r": "noslot"}),
+                }
+            }
+            "set_isn" => {
+                // verif-hooks: reposition the host's ISN counter (sequence wrap-around tests)
+                let h = c[1].as_u64().unwrap() as usize;
+                if h < hosts.len() {
+                    turmoil_net::verif::set_tcp_isn(hosts[h], c[2].as_u64().unwrap() as u32);
+                    json!({"r": "ok"})
+                } else {
+                    json!({"r": "noslot"})
                 }
             }
             "udp_connect" => {
